@@ -6,6 +6,7 @@
 import BitstringModel.Model.C14
 import BitstringModel.Proofs.C14
 import BitstringModel.Proofs.C14Items
+import Mathlib.Data.List.Forall2
 
 namespace BM.C14
 open BM
@@ -238,12 +239,12 @@ theorem bdelSlice_nat' (d : Bits) (a b : Nat) (ha : a ≤ d.length) (hb : b ≤ 
   omega
 
 /-- The `overwrite` loop of an extended-slice assignment, on a buffer in block form. -/
-theorem overwriteLoop_blocks (c : Codec V) (hu : c.mult = 1) (hL : 0 < c.L) (hwf : c.WF) (t : Bits)
+theorem overwriteLoop_blocks (c : Codec V) (hL : 0 < c.w) (hwf : c.WF) (t : Bits)
     (idx : List Int) (vals : List V) (bl : List Bits) (hf : List.Forall₂ (fun v b => c.enc v = .ok b) vals bl)
-    (bs : List Bits) (hbs : ∀ b ∈ bs, b.length = c.L) (hidx : ∀ i ∈ idx, 0 ≤ i ∧ i < bs.length) :
+    (bs : List Bits) (hbs : ∀ b ∈ bs, b.length = c.w) (hidx : ∀ i ∈ idx, 0 ≤ i ∧ i < bs.length) :
     overwriteLoop c (idx.zip vals) (bs.flatten ++ t)
       = ⟨((idx.zip bl).foldl (fun acc p => acc.set p.1.toNat p.2) bs).flatten ++ t, .ok ()⟩ ∧
-    (∀ b ∈ (idx.zip bl).foldl (fun acc p => acc.set p.1.toNat p.2) bs, b.length = c.L) := by
+    (∀ b ∈ (idx.zip bl).foldl (fun acc p => acc.set p.1.toNat p.2) bs, b.length = c.w) := by
   induction idx generalizing vals bl bs with
   | nil => simp [overwriteLoop]; exact hbs
   | cons i idx ih =>
@@ -252,10 +253,10 @@ theorem overwriteLoop_blocks (c : Codec V) (hu : c.mult = 1) (hL : 0 < c.L) (hwf
     | @cons v b vs bl' hb hf' =>
       have hi := hidx i (by simp)
       have hk : i.toNat < bs.length := by omega
-      obtain ⟨hce, hbl, _⟩ := createElement_ok c hu hwf v b hb
-      have e1 : i * (c.L : Int) = ((c.L * i.toNat : Nat) : Int) := by
+      obtain ⟨hce, hbl, _⟩ := createElement_ok c hwf v b hb
+      have e1 : i * (c.w : Int) = ((c.w * i.toNat : Nat) : Int) := by
         push_cast; rw [Int.toNat_of_nonneg hi.1]; ring
-      have hbs' := set_blocks_length c.L bs b hbs hbl i.toNat
+      have hbs' := set_blocks_length c.w bs b hbs hbl i.toNat
       have hidx' : ∀ j ∈ idx, 0 ≤ j ∧ j < (bs.set i.toNat b).length := by
         intro j hj
         rw [List.length_set]
@@ -265,7 +266,7 @@ theorem overwriteLoop_blocks (c : Codec V) (hu : c.mult = 1) (hL : 0 < c.L) (hwf
       refine ⟨?_, h2⟩
       unfold overwriteLoop
       simp only [hce]
-      rw [e1, overwrite_block c.L hL bs t b hbs hbl i.toNat hk]
+      rw [e1, overwrite_block c.w hL bs t b hbs hbl i.toNat hk]
       exact h1
 
 theorem foldl_set_map {α β} (f : α → β) (idx : List Int) (l : List α) (vs : List α) :
@@ -303,18 +304,18 @@ theorem max_mul_right (a b L : Nat) : max (a * L) (b * L) = (max a b) * L := by
   · rw [Nat.max_eq_left h, Nat.max_eq_left (Nat.mul_le_mul_right L h)]
 
 /-- Slice assignment on a buffer in block form = list slice assignment on the blocks. -/
-theorem setSlice_blocks (c : Codec V) (hu : c.mult = 1) (hL : 0 < c.L) (hwf : c.WF) (bs : List Bits) (t : Bits)
-    (hbs : ∀ b ∈ bs, b.length = c.L) (ht : t.length < c.L) (start stop step : Option Int) (vals : List V) (bl : List Bits)
-    (hf : List.Forall₂ (fun v b => c.enc v = .ok b) vals bl) (hbl : ∀ b ∈ bl, b.length = c.L)
+theorem setSlice_blocks (c : Codec V) (hL : 0 < c.w) (hwf : c.WF) (bs : List Bits) (t : Bits)
+    (hbs : ∀ b ∈ bs, b.length = c.w) (ht : t.length < c.w) (start stop step : Option Int) (vals : List V) (bl : List Bits)
+    (hf : List.Forall₂ (fun v b => c.enc v = .ok b) vals bl) (hbl : ∀ b ∈ bl, b.length = c.w)
     (hca : createAll c vals = .ok bl.flatten) :
     (setSlice c (bs.flatten ++ t) start stop step vals =
       match PyL.setSlice bs start stop step bl with
       | .ok bs' => ⟨bs'.flatten ++ t, .ok ()⟩
       | .error e => ⟨bs.flatten ++ t, .error e⟩) ∧
-    (∀ bs', PyL.setSlice bs start stop step bl = .ok bs' → ∀ b ∈ bs', b.length = c.L) := by
-  have hlen := (view_of_blocks c hu hL bs t hbs ht).2.2.2
-  have hdl : (bs.flatten ++ t).length = bs.length * c.L + t.length := by
-    rw [List.length_append, blocks_flatten_length c.L bs hbs]
+    (∀ bs', PyL.setSlice bs start stop step bl = .ok bs' → ∀ b ∈ bs', b.length = c.w) := by
+  have hlen := (view_of_blocks c hL bs t hbs ht).2.2.2
+  have hdl : (bs.flatten ++ t).length = bs.length * c.w + t.length := by
+    rw [List.length_append, blocks_flatten_length c.w bs hbs]
   unfold setSlice PyL.setSlice
   rw [hlen]
   generalize hk : step.getD 1 = k
@@ -329,15 +330,15 @@ theorem setSlice_blocks (c : Codec V) (hu : c.mult = 1) (hL : 0 < c.L) (hwf : c.
       have hr := sliceIndices_pos_range start stop 1 (by omega) bs.length
       generalize (Py.sliceIndices start stop 1 bs.length).1 = s at hr ⊢
       generalize (Py.sliceIndices start stop 1 bs.length).2.1 = e at hr ⊢
-      have e1 : s * (c.L : Int) = ((s.toNat * c.L : Nat) : Int) := by
+      have e1 : s * (c.w : Int) = ((s.toNat * c.w : Nat) : Int) := by
         push_cast; rw [Int.toNat_of_nonneg hr.1]
-      have e2 : e * (c.L : Int) = ((e.toNat * c.L : Nat) : Int) := by
+      have e2 : e * (c.w : Int) = ((e.toNat * c.w : Nat) : Int) := by
         push_cast; rw [Int.toNat_of_nonneg hr.2.2.1]
-      have hs' : s.toNat * c.L ≤ bs.length * c.L := Nat.mul_le_mul_right _ (by omega)
-      have he' : e.toNat * c.L ≤ bs.length * c.L := Nat.mul_le_mul_right _ (by omega)
+      have hs' : s.toNat * c.w ≤ bs.length * c.w := Nat.mul_le_mul_right _ (by omega)
+      have he' : e.toNat * c.w ≤ bs.length * c.w := Nat.mul_le_mul_right _ (by omega)
       have hmax : (max s e).toNat = max s.toNat e.toNat := by omega
       rw [e1, e2, bsetSlice_nat' _ _ _ _ (by omega) (by omega), max_mul_right]
-      rw [take_blocks c.L bs t hbs s.toNat (by omega), drop_blocks c.L bs t hbs (max s.toNat e.toNat) (by omega), hmax]
+      rw [take_blocks c.w bs t hbs s.toNat (by omega), drop_blocks c.w bs t hbs (max s.toNat e.toNat) (by omega), hmax]
       refine ⟨by simp, ?_⟩
       intro bs' hbs'
       injection hbs' with hbs'
@@ -354,7 +355,7 @@ theorem setSlice_blocks (c : Codec V) (hu : c.mult = 1) (hL : 0 < c.L) (hwf : c.
       · have hl' : ¬ (vals.length ≠ Py.rangeLen (Py.sliceIndices start stop k bs.length).1 (Py.sliceIndices start stop k bs.length).2.1 k) :=
           not_not.mpr hl
         rw [if_pos hl, if_neg hl']
-        obtain ⟨h2, h3⟩ := overwriteLoop_blocks c hu hL hwf t _ vals bl hf bs hbs
+        obtain ⟨h2, h3⟩ := overwriteLoop_blocks c hL hwf t _ vals bl hf bs hbs
           (fun i hi => rangeList_slice_mem start stop k h0 bs.length i hi)
         refine ⟨h2, ?_⟩
         intro bs' hbs'
@@ -363,5 +364,336 @@ theorem setSlice_blocks (c : Codec V) (hu : c.mult = 1) (hL : 0 < c.L) (hwf : c.
         exact h3
       · rw [if_neg hl, if_pos hl]
         exact ⟨rfl, fun bs' hbs' => by cases hbs'⟩
+
+theorem createAll_err (c : Codec V) (vals : List V) (h : vals.all (fits c) = false) :
+    ∃ e, createAll c vals = .error e := by
+  induction vals with
+  | nil => simp at h
+  | cons v vs ih =>
+    unfold createAll
+    cases hce : createElement c v with
+    | error e => exact ⟨e, rfl⟩
+    | ok b =>
+      have hfv : fits c v = true := (fits_iff c v).mpr ⟨b, (createElement_ok_inv c v b hce).1⟩
+      simp only [List.all_cons, hfv, Bool.true_and] at h
+      obtain ⟨e, he⟩ := ih h
+      simp only [he]
+      exact ⟨e, rfl⟩
+
+/-! ### del a[start:stop:step] -/
+
+/-- The elements of `l` (whose first element has index `k`) at the indices that satisfy `P`. -/
+def keepFrom {α} (k : Nat) (l : List α) (P : Nat → Bool) : List α :=
+  ((l.zipIdx k).filter fun p => P p.2).map Prod.fst
+
+theorem keepFrom_append {α} (k : Nat) (l1 l2 : List α) (P : Nat → Bool) :
+    keepFrom k (l1 ++ l2) P = keepFrom k l1 P ++ keepFrom (k + l1.length) l2 P := by
+  simp [keepFrom, List.zipIdx_append, List.filter_append]
+
+theorem keepFrom_all {α} (k : Nat) (l : List α) (P : Nat → Bool) (h : ∀ i, k ≤ i → i < k + l.length → P i = true) :
+    keepFrom k l P = l := by
+  unfold keepFrom
+  rw [List.filter_eq_self.mpr]
+  · exact List.zipIdx_map_fst k l
+  · intro p hp
+    exact h p.2 (List.le_snd_of_mem_zipIdx hp) (List.snd_lt_add_of_mem_zipIdx hp)
+
+theorem keepFrom_none {α} (k : Nat) (l : List α) (P : Nat → Bool) (h : ∀ i, k ≤ i → i < k + l.length → P i = false) :
+    keepFrom k l P = [] := by
+  unfold keepFrom
+  rw [List.filter_eq_nil_iff.mpr]
+  · rfl
+  · intro p hp
+    rw [h p.2 (List.le_snd_of_mem_zipIdx hp) (List.snd_lt_add_of_mem_zipIdx hp)]
+    simp
+
+theorem keepFrom_congr {α} (k : Nat) (l : List α) (P Q : Nat → Bool) (h : ∀ i, k ≤ i → i < k + l.length → P i = Q i) :
+    keepFrom k l P = keepFrom k l Q := by
+  unfold keepFrom
+  congr 1
+  apply List.filter_congr
+  intro p hp
+  exact h p.2 (List.le_snd_of_mem_zipIdx hp) (List.snd_lt_add_of_mem_zipIdx hp)
+
+theorem keepFrom_map {α β} (f : α → β) (k : Nat) (l : List α) (P : Nat → Bool) :
+    keepFrom k (l.map f) P = (keepFrom k l P).map f := by
+  unfold keepFrom
+  rw [List.zipIdx_map, List.filter_map, List.map_map, List.map_map]
+  rfl
+
+theorem keepFrom_mem {α} (k : Nat) (l : List α) (P : Nat → Bool) : ∀ x ∈ keepFrom k l P, x ∈ l := by
+  intro x hx
+  unfold keepFrom at hx
+  obtain ⟨p, hp, rfl⟩ := List.mem_map.mp hx
+  exact List.fst_mem_of_mem_zipIdx (List.mem_of_mem_filter hp)
+
+theorem pyDelSlice_eq {α} (l : List α) (start stop : Option Int) (st : Int) (hst : st ≠ 0) :
+    PyL.delSlice l start stop (some st) = .ok (keepFrom 0 l fun j =>
+      !((Py.rangeList (Py.sliceIndices start stop st l.length).1 (Py.sliceIndices start stop st l.length).2.1 st).contains (j : Int))) := by
+  unfold PyL.delSlice keepFrom
+  simp only [Option.getD_some, hst, if_false]
+  rfl
+
+theorem pyDelSlice_getD {α} (l : List α) (start stop step : Option Int) :
+    PyL.delSlice l start stop step = PyL.delSlice l start stop (some (step.getD 1)) := by
+  unfold PyL.delSlice; simp
+
+/-- Erasing a strictly decreasing list of valid indices one after the other = keeping the other indices. -/
+theorem foldl_erase_keep {α} (desc : List Int) (hd : desc.Pairwise (· > ·)) (l : List α)
+    (hr : ∀ i ∈ desc, 0 ≤ i ∧ i < l.length) :
+    desc.foldl (fun acc i => acc.eraseIdx i.toNat) l = keepFrom 0 l (fun j => !(desc.contains (j : Int))) := by
+  induction desc generalizing l with
+  | nil =>
+    simp only [List.foldl_nil]
+    exact (keepFrom_all 0 l _ (fun i _ _ => by simp)).symm
+  | cons i rest ih =>
+    rw [List.pairwise_cons] at hd
+    obtain ⟨hi0, hil⟩ := hr i (by simp)
+    have hk : i.toNat < l.length := by omega
+    have hrest : ∀ r ∈ rest, 0 ≤ r ∧ r < i := fun r hrm => ⟨(hr r (by simp [hrm])).1, hd.1 r hrm⟩
+    rw [List.foldl_cons, ih hd.2 (l.eraseIdx i.toNat) (by
+      intro r hrm
+      have := hrest r hrm
+      rw [List.length_eraseIdx_of_lt hk]
+      omega)]
+    -- split both lists at position i
+    have hsplit : l = l.take i.toNat ++ ([l[i.toNat]] ++ l.drop (i.toNat + 1)) := by
+      rw [List.singleton_append, ← List.drop_eq_getElem_cons hk, List.take_append_drop]
+    have herase : l.eraseIdx i.toNat = l.take i.toNat ++ l.drop (i.toNat + 1) := List.eraseIdx_eq_take_drop_succ _ _
+    have htl : (l.take i.toNat).length = i.toNat := by rw [List.length_take]; omega
+    rw [herase]
+    conv_rhs => rw [hsplit]
+    rw [keepFrom_append, keepFrom_append, keepFrom_append, htl]
+    simp only [Nat.zero_add, List.length_singleton]
+    congr 1
+    · apply keepFrom_congr
+      intro j _ hj
+      rw [htl] at hj
+      have hne : ¬ ((j : Int) = i) := by omega
+      simp [hne]
+    · rw [keepFrom_none i.toNat [l[i.toNat]] _ (by
+        intro j hj1 hj2
+        simp only [List.length_singleton] at hj2
+        have : (j : Int) = i := by omega
+        simp [this])]
+      rw [List.nil_append]
+      rw [keepFrom_all _ _ _ (by
+        intro j hj1 _
+        have hnm : ¬ ((j : Int) ∈ rest) := fun hm => by have := hrest _ hm; omega
+        simp [hnm])]
+      rw [keepFrom_all _ _ _ (by
+        intro j hj1 _
+        have hne : ¬ ((j : Int) = i) := by omega
+        have hnm : ¬ ((j : Int) ∈ rest) := fun hm => by have := hrest _ hm; omega
+        simp [hne, hnm])]
+
+/-- The deletion loop (from the highest index down) on a buffer in block form. -/
+theorem delLoop_blocks (L : Nat) (t : Bits) (desc : List Int) (hd : desc.Pairwise (· > ·)) (bs : List Bits)
+    (hbs : ∀ b ∈ bs, b.length = L) (hr : ∀ i ∈ desc, 0 ≤ i ∧ i < bs.length) :
+    desc.foldl (fun acc s => bdelSlice acc (s * (L : Int)) ((s + 1) * (L : Int))) (bs.flatten ++ t)
+      = (desc.foldl (fun acc i => acc.eraseIdx i.toNat) bs).flatten ++ t := by
+  induction desc generalizing bs with
+  | nil => rfl
+  | cons i rest ih =>
+    rw [List.pairwise_cons] at hd
+    obtain ⟨hi0, hil⟩ := hr i (by simp)
+    have hk : i.toNat < bs.length := by omega
+    have e1 : i * (L : Int) = ((L * i.toNat : Nat) : Int) := by
+      push_cast; rw [Int.toNat_of_nonneg hi0]; ring
+    have e2 : (i + 1) * (L : Int) = ((L * i.toNat : Nat) : Int) + (L : Int) := by
+      push_cast; rw [Int.toNat_of_nonneg hi0]; ring
+    rw [List.foldl_cons, List.foldl_cons, e2, e1, delete_block L bs t hbs i.toNat hk]
+    apply ih hd.2 _ (erase_blocks_length L bs hbs i.toNat)
+    intro r hrm
+    have h1 := (hr r (by simp [hrm])).1
+    have h2 := hd.1 r hrm
+    rw [List.length_eraseIdx_of_lt hk]
+    omega
+
+theorem mem_rangeList_one (s e j : Int) : j ∈ Py.rangeList s e 1 ↔ s ≤ j ∧ j < e := by
+  unfold Py.rangeList
+  rw [C01.rangeLen_one]
+  simp only [List.mem_map, List.mem_range]
+  constructor
+  · rintro ⟨k, hk, rfl⟩; omega
+  · intro h
+    exact ⟨(j - s).toNat, by omega, by omega⟩
+
+/-- Keeping everything outside `[s, e)`. -/
+theorem keep_interval {α} (l : List α) (s e : Nat) (hs : s ≤ l.length) (he : e ≤ l.length) :
+    keepFrom 0 l (fun j => !((Py.rangeList (s : Int) (e : Int) 1).contains (j : Int))) = l.take s ++ l.drop (max s e) := by
+  have hsplit : l = l.take s ++ ((l.drop s).take (max s e - s) ++ l.drop (max s e)) := by
+    have h1 : (l.drop s).take (max s e - s) ++ l.drop (max s e) = l.drop s := by
+      have := List.take_append_drop (max s e - s) (l.drop s)
+      rw [List.drop_drop] at this
+      have e1 : s + (max s e - s) = max s e := by omega
+      rw [e1] at this
+      exact this
+    rw [h1, List.take_append_drop]
+  have htl : (l.take s).length = s := by rw [List.length_take]; omega
+  have hml : ((l.drop s).take (max s e - s)).length = max s e - s := by
+    rw [List.length_take, List.length_drop]; omega
+  conv_lhs => rw [hsplit]
+  rw [keepFrom_append, keepFrom_append, htl, hml]
+  rw [keepFrom_all 0 (l.take s) _ (by
+    intro j _ hj
+    rw [htl] at hj
+    simp [mem_rangeList_one]
+    omega)]
+  rw [keepFrom_none _ _ _ (by
+    intro j hj1 hj2
+    rw [hml] at hj2
+    simp [mem_rangeList_one]
+    omega)]
+  rw [keepFrom_all _ _ _ (by
+    intro j hj1 _
+    simp [mem_rangeList_one]
+    omega)]
+  simp
+
+theorem rangeList_pairwise_pos (a b st : Int) (hst : 0 < st) : (Py.rangeList a b st).Pairwise (· < ·) := by
+  unfold Py.rangeList
+  rw [List.pairwise_map]
+  apply List.Pairwise.imp _ List.pairwise_lt_range
+  intro i j hij
+  have : (i : Int) * st < (j : Int) * st := Int.mul_lt_mul_of_pos_right (by omega) hst
+  omega
+
+theorem rangeList_pairwise_neg (a b st : Int) (hst : st < 0) : (Py.rangeList a b st).Pairwise (· > ·) := by
+  unfold Py.rangeList
+  rw [List.pairwise_map]
+  apply List.Pairwise.imp _ List.pairwise_lt_range
+  intro i j hij
+  have : (i : Int) * (-st) < (j : Int) * (-st) := Int.mul_lt_mul_of_pos_right (by omega) (by omega)
+  have e1 : (i : Int) * (-st) = -((i : Int) * st) := by ring
+  have e2 : (j : Int) * (-st) = -((j : Int) * st) := by ring
+  omega
+
+theorem pyDelSlice_mem {α} (l : List α) (start stop step : Option Int) (r : List α)
+    (h : PyL.delSlice l start stop step = .ok r) : ∀ x ∈ r, x ∈ l := by
+  rw [pyDelSlice_getD] at h
+  by_cases h0 : step.getD 1 = 0
+  · rw [h0] at h; simp [PyL.delSlice] at h
+  · rw [pyDelSlice_eq _ _ _ _ h0] at h
+    injection h with h
+    subst h
+    exact keepFrom_mem 0 l _
+
+theorem pyDelSlice_map {α β} (f : α → β) (l : List α) (start stop step : Option Int) :
+    PyL.delSlice (l.map f) start stop step = (PyL.delSlice l start stop step).map (List.map f) := by
+  rw [pyDelSlice_getD, pyDelSlice_getD l]
+  by_cases h0 : step.getD 1 = 0
+  · rw [h0]; simp [PyL.delSlice, Except.map]
+  · rw [pyDelSlice_eq _ _ _ _ h0, pyDelSlice_eq _ _ _ _ h0, List.length_map, keepFrom_map]
+    rfl
+
+/-- Slice deletion on a buffer in block form = list slice deletion on the blocks. -/
+theorem delSlice_blocks (c : Codec V) (hL : 0 < c.w) (bs : List Bits) (t : Bits)
+    (hbs : ∀ b ∈ bs, b.length = c.w) (ht : t.length < c.w) (start stop step : Option Int) :
+    delSlice c (bs.flatten ++ t) start stop step =
+      match PyL.delSlice bs start stop step with
+      | .ok bs' => ⟨bs'.flatten ++ t, .ok ()⟩
+      | .error e => ⟨bs.flatten ++ t, .error e⟩ := by
+  have hlen := (view_of_blocks c hL bs t hbs ht).2.2.2
+  have hdl : (bs.flatten ++ t).length = bs.length * c.w + t.length := by
+    rw [List.length_append, blocks_flatten_length c.w bs hbs]
+  rw [pyDelSlice_getD]
+  unfold delSlice
+  rw [hlen]
+  generalize hk : step.getD 1 = k
+  by_cases h0 : k = 0
+  · subst h0
+    simp [PyL.delSlice]
+  · simp only [h0, if_false]
+    rw [pyDelSlice_eq bs start stop k h0]
+    simp only
+    by_cases h1 : k = 1
+    · subst h1
+      simp only [if_true]
+      have hr := sliceIndices_pos_range start stop 1 (by omega) bs.length
+      generalize (Py.sliceIndices start stop 1 bs.length).1 = s at hr ⊢
+      generalize (Py.sliceIndices start stop 1 bs.length).2.1 = e at hr ⊢
+      have e1 : s * (c.w : Int) = ((s.toNat * c.w : Nat) : Int) := by
+        push_cast; rw [Int.toNat_of_nonneg hr.1]
+      have e2 : e * (c.w : Int) = ((e.toNat * c.w : Nat) : Int) := by
+        push_cast; rw [Int.toNat_of_nonneg hr.2.2.1]
+      have hs' : s.toNat * c.w ≤ bs.length * c.w := Nat.mul_le_mul_right _ (by omega)
+      have he' : e.toNat * c.w ≤ bs.length * c.w := Nat.mul_le_mul_right _ (by omega)
+      rw [e1, e2, bdelSlice_nat' _ _ _ (by omega) (by omega), max_mul_right]
+      rw [take_blocks c.w bs t hbs s.toNat (by omega), drop_blocks c.w bs t hbs (max s.toNat e.toNat) (by omega)]
+      have hs2 : s = ((s.toNat : Nat) : Int) := by omega
+      have he2 : e = ((e.toNat : Nat) : Int) := by omega
+      conv_rhs => rw [hs2, he2]
+      rw [keep_interval bs s.toNat e.toNat (by omega) (by omega)]
+      simp
+    · simp only [h1, if_false]
+      generalize hidx : Py.rangeList (Py.sliceIndices start stop k bs.length).1 (Py.sliceIndices start stop k bs.length).2.1 k = idx
+      have hmem : ∀ i ∈ idx, 0 ≤ i ∧ i < bs.length := by
+        intro i hi
+        rw [← hidx] at hi
+        exact rangeList_slice_mem start stop k h0 bs.length i hi
+      by_cases hp : k > 0
+      · simp only [hp, if_true]
+        have hpw : idx.reverse.Pairwise (· > ·) := by
+          rw [List.pairwise_reverse]
+          rw [← hidx]
+          exact rangeList_pairwise_pos _ _ _ hp
+        rw [delLoop_blocks c.w t idx.reverse hpw bs hbs (fun i hi => hmem i (List.mem_reverse.mp hi))]
+        rw [foldl_erase_keep idx.reverse hpw bs (fun i hi => hmem i (List.mem_reverse.mp hi))]
+        have : keepFrom 0 bs (fun j => !(idx.reverse.contains (j : Int))) = keepFrom 0 bs (fun j => !(idx.contains (j : Int))) := by
+          apply keepFrom_congr
+          intro j _ _
+          simp
+        rw [this]
+      · simp only [hp, if_false]
+        have hpw : idx.Pairwise (· > ·) := by
+          rw [← hidx]
+          exact rangeList_pairwise_neg _ _ _ (by omega)
+        rw [delLoop_blocks c.w t idx hpw bs hbs hmem, foldl_erase_keep idx hpw bs hmem]
+
+/-! ### reverse -/
+
+/-- One iteration of the swap loop: items `j` and `n-1-j` change places. -/
+theorem reverse_step (L : Nat) (B : List Bits) (hB : ∀ b ∈ B, b.length = L) (j : Nat) (hj : 2 * j + 1 ≤ B.length) :
+    (let acc := B.flatten ++ ([] : Bits)
+     let sb : Int := (0 : Int) + (j : Int) * (L : Int)
+     let sw : Int := (acc.length : Int) - sb - (L : Int)
+     let temp := bslice acc (some sb) (some (sb + (L : Int)))
+     let acc1 := bsetSlice acc sb (sb + (L : Int)) (bslice acc (some sw) (some (sw + (L : Int))))
+     bsetSlice acc1 sw (sw + (L : Int)) temp)
+    = ((B.set j (B[B.length - 1 - j]'(by omega))).set (B.length - 1 - j) (B[j]'(by omega))).flatten ++ ([] : Bits) := by
+  have hj1 : j < B.length := by omega
+  have hj2 : B.length - 1 - j < B.length := by omega
+  have hlen : (B.flatten ++ ([] : Bits)).length = B.length * L := by
+    rw [List.append_nil, blocks_flatten_length L B hB]
+  have hm1 : (j + 1) * L ≤ B.length * L := Nat.mul_le_mul_right _ (by omega)
+  have hm2 : (B.length - 1 - j + 1) * L ≤ B.length * L := Nat.mul_le_mul_right _ (by omega)
+  have ea : (j + 1) * L = j * L + L := by ring
+  have eb : (B.length - 1 - j + 1) * L = (B.length - 1 - j) * L + L := by ring
+  have esb : (0 : Int) + (j : Int) * (L : Int) = ((j * L : Nat) : Int) := by push_cast; ring
+  have esbL : ((j * L : Nat) : Int) + (L : Int) = ((j * L + L : Nat) : Int) := by push_cast; ring
+  have hnl : B.length * L = (B.length - 1 - j) * L + L + j * L := by
+    have : B.length = (B.length - 1 - j) + 1 + j := by omega
+    calc B.length * L = ((B.length - 1 - j) + 1 + j) * L := by rw [← this]
+      _ = (B.length - 1 - j) * L + L + j * L := by ring
+  have esw : ((B.flatten ++ ([] : Bits)).length : Int) - ((j * L : Nat) : Int) - (L : Int) = (((B.length - 1 - j) * L : Nat) : Int) := by
+    rw [hlen]; omega
+  have eswL : (((B.length - 1 - j) * L : Nat) : Int) + (L : Int) = (((B.length - 1 - j) * L + L : Nat) : Int) := by
+    push_cast; ring
+  simp only
+  rw [esb, esw, esbL, eswL]
+  rw [bslice_nat _ (j * L) (j * L + L) (by omega) (by omega)]
+  rw [bslice_nat _ ((B.length - 1 - j) * L) ((B.length - 1 - j) * L + L) (by omega) (by omega)]
+  have s1 : j * L + L - j * L = L := by omega
+  have s2 : (B.length - 1 - j) * L + L - (B.length - 1 - j) * L = L := by omega
+  rw [s1, s2, block_at L B [] hB j hj1, block_at L B [] hB _ hj2]
+  rw [bsetSlice_nat _ _ (j * L) (j * L + L) (by omega) (by omega) (by omega)]
+  rw [set_block L B [] _ hB j hj1]
+  have hB1 : ∀ b ∈ B.set j B[B.length - 1 - j], b.length = L :=
+    set_blocks_length L B _ hB (hB _ (List.getElem_mem hj2)) j
+  have hlen1 : ((B.set j B[B.length - 1 - j]).flatten ++ ([] : Bits)).length = B.length * L := by
+    rw [List.append_nil, blocks_flatten_length L _ hB1, List.length_set]
+  rw [bsetSlice_nat _ _ ((B.length - 1 - j) * L) ((B.length - 1 - j) * L + L) (by omega) (by omega) (by omega)]
+  rw [set_block L _ [] _ hB1 (B.length - 1 - j) (by rw [List.length_set]; exact hj2)]
 
 end BM.C14
